@@ -530,6 +530,7 @@ func (k *K9) deferredCleans(fn *ssa.Function, ret *ssa.Return, isFail bool) kset
 				// `defer t.cleanOnFailure(&err)` with `if *errp != nil { clean }` inside
 				if isFail {
 					out.addAll(k.cleansOnErrPtr(fn, clo, d, ret))
+					out.addAll(k.cleansOnStatusPtr(clo, d))
 				}
 				continue
 			}
@@ -631,6 +632,57 @@ func (k *K9) cleansOnErrPtr(fn, callee *ssa.Function, d *ssa.Defer, ret *ssa.Ret
 			}
 			if applies {
 				out.addAll(cleans)
+			}
+		}
+	}
+	return out
+}
+
+// cleansOnStatusPtr: the deferred callee gets the address of the operation's status record (the object FailGuard
+// speaks about) and cleans under the same failure marker read through that pointer:
+// `defer l.dropOnFailure(&status)` with `if !status.Succ { clean }` (or `if status.Succ { return }; clean`) inside.
+func (k *K9) cleansOnStatusPtr(callee *ssa.Function, d *ssa.Defer) kset {
+	out := kset{}
+	if k.FailGuard == nil {
+		return out
+	}
+	for i, a := range d.Call.Args {
+		al, ok := a.(*ssa.Alloc)
+		if !ok || i >= len(callee.Params) {
+			continue
+		}
+		local := "local<" + namedOf(al.Type()) + ">"
+		pname := fmt.Sprintf("p%d", i)
+		for _, cb := range callee.Blocks {
+			for _, ci := range cb.Instrs {
+				call, ok := ci.(ssa.CallInstruction)
+				if !ok {
+					continue
+				}
+				cleans := kset{}
+				for _, kd := range k.Kinds {
+					if matchSpecArg(call, kd.Clean) {
+						cleans[kd.Name] = true
+					}
+				}
+				if c2 := call.Common().StaticCallee(); c2 != nil {
+					cleans.addAll(k.cleansAlways(c2))
+				}
+				if len(cleans) == 0 {
+					continue
+				}
+				applies, marked := true, false
+				for _, g := range GuardsOf(cb) {
+					// the callee's `pN.Succ` is the caller's `local<T>.Succ`
+					if strings.HasPrefix(g.Canon, pname+".") && k.FailGuard(Cond{Canon: local + g.Canon[len(pname):], Sense: g.Sense}) {
+						marked = true
+						continue
+					}
+					applies = false
+				}
+				if applies && marked {
+					out.addAll(cleans)
+				}
 			}
 		}
 	}
